@@ -65,7 +65,7 @@ def native_driver(modname, driver, case, timeout_s=3600):
         for name, rel in kanirun.ATTACH.items():
             hf = os.path.join(VERIF, "kani", name + ".rs")
             if os.path.exists(hf) and os.path.exists(os.path.join(scratch, rel)):
-                inject_hook(scratch, rel, f'#[cfg(any(kani, verif_replay))]\n#[path = "{hf}"]\nmod verif_kani_{name};')
+                inject_hook(scratch, rel, f'#[cfg(any(kani, verif_replay))]\n#[path = "{hf}"]\npub(crate) mod verif_kani_{name};')
         env = env_offline({
             "RUSTFLAGS": "--cfg verif_replay -A warnings",
             "VERIF_REPLAY_HARNESS": driver,
@@ -98,7 +98,7 @@ def native_replay(modname, harness, vals, tries=3, timeout_s=3600):
         for name, rel in kanirun.ATTACH.items():
             hf = os.path.join(VERIF, "kani", name + ".rs")
             if os.path.exists(hf) and os.path.exists(os.path.join(scratch, rel)):
-                inject_hook(scratch, rel, f'#[cfg(any(kani, verif_replay))]\n#[path = "{hf}"]\nmod verif_kani_{name};')
+                inject_hook(scratch, rel, f'#[cfg(any(kani, verif_replay))]\n#[path = "{hf}"]\npub(crate) mod verif_kani_{name};')
         env = env_offline({
             "RUSTFLAGS": "--cfg verif_replay -A warnings",
             "VERIF_REPLAY_HARNESS": harness,
